@@ -76,3 +76,27 @@ func VerifRegexSeqSelfTest() {
 		verifrt.Reach("seq-nomatch")
 	}
 }
+
+// VerifCaseModelSelfTest: the models of strings.ToLower / ToUpper on a symbolic string embedded in
+// constant text.
+func VerifCaseModelSelfTest() {
+	s := verifrt.String("s", 3, "EOFeof")
+	if verifrt.Param("chars", 0) == 1 {
+		s = verifrt.Chars("s", 3, "EOFeof")
+	}
+	msg := "full output: '" + s + "' end"
+	low := strings.ToLower(msg)
+	up := strings.ToUpper(msg)
+	verifrt.Observe("low", low)
+	verifrt.Assert(verifrt.Implies(s == "EOF", strings.Contains(low, "eof")), "tolower-example")
+	verifrt.Assert(verifrt.Implies(s == "EoF", strings.Contains(low, "eof")), "tolower-mixed")
+	verifrt.Assert(verifrt.Implies(s == "eo", !strings.Contains(low, "eof")), "tolower-counterexample")
+	verifrt.Assert(verifrt.Implies(strings.Contains(msg, "EOF"), strings.Contains(low, "eof")), "tolower-monotone")
+	verifrt.Assert(verifrt.Implies(strings.Contains(low, "eof"), strings.Contains(up, "EOF")), "lower-upper-agree")
+	verifrt.Assert(len(low) == len(msg), "tolower-keeps-length")
+	if strings.Contains(low, "eof") {
+		verifrt.Reach("has-eof")
+	} else {
+		verifrt.Reach("no-eof")
+	}
+}
